@@ -214,15 +214,22 @@ func insertMethod(class, super slip.Class, method *slip.Method, combo *slip.Comb
 	if pos < len(m.Combinations) && m.Combinations[pos].From == class {
 		pos++
 	}
+	// The combinations are kept in precedence order, the class itself
+	// followed by the inherited classes. Skip the combinations of the
+	// classes that come before super.
 	for _, f := range class.InheritsList() {
-		if len(m.Combinations) <= pos || m.Combinations[pos].From == super {
+		if len(m.Combinations) <= pos || f == super {
 			break
 		}
 		if m.Combinations[pos].From == f {
 			pos++
 		}
 	}
-	m.Combinations = append(append(m.Combinations[:pos], combo), m.Combinations[pos:]...)
+	// Build a new slice so the tail is not overwritten while inserting.
+	combos := make([]*slip.Combination, 0, len(m.Combinations)+1)
+	combos = append(combos, m.Combinations[:pos]...)
+	combos = append(combos, combo)
+	m.Combinations = append(combos, m.Combinations[pos:]...)
 }
 
 // DefCallerMethod defines a method for a caller.
